@@ -562,8 +562,11 @@ class C07Plan(C04Plan):
             "(every outcome class and every magnitude) must be identical. Query shapes from the calibrated region; "
             "exemplars of the excluded classes are re-executed every run.")
 
-    def check(self, tier, seed, args, t0):
-        return super().check(tier, seed, args, t0)
+    def params(self, tier):
+        # no asynchronous exceptions here: an injection is placed by counting line events, and
+        # `python -O` executes fewer lines (asserts vanish), so the same ordinal would land
+        # elsewhere and the two logs would differ for a reason that is not the library's
+        return {"faults": False}
 
     def boots(self, tier, seed):
         return b_boots(seed, tier)
